@@ -29,6 +29,11 @@ def locate(text, records, table=None, from_pos=0):
     return None
 
 
+def found_by(spans):
+    """'Found' = some window of at least one instruction matches (the empty window of an all-optional rule is no occurrence)."""
+    return any(j > i for i, ends in (spans or {}).items() for j in ends)
+
+
 def compare(ev, pattern, L, mn_full=None, op_full=None, modes=("bool", "list"), any_macro=None, macros_files=None,
             doc_macros=None, tag=None, spans=None, text=None, NV=None):
     """Compare JASM (bool first-find + all-matches full text) with the reference on one (rule, listing, flags).
@@ -42,7 +47,7 @@ def compare(ev, pattern, L, mn_full=None, op_full=None, modes=("bool", "list"), 
     if spans is None:
         ref = Ref(NV, bool(mn_full), bool(op_full), any_macro=any_macro)
         spans = ref.spans(pattern)
-    exp = bool(spans)
+    exp = found_by(spans)
     if text is None:
         text = render(att_view(L))
     doc = jasm_io.make_doc(pattern, mn_full, op_full, macros=doc_macros)
@@ -79,12 +84,11 @@ def compare(ev, pattern, L, mn_full=None, op_full=None, modes=("bool", "list"), 
             pos = 0
             for t in got:
                 if t == "":
-                    # an empty match is legitimate only for a rule that can match the empty sequence
-                    if not Ref([], bool(mn_full), bool(op_full), any_macro=any_macro).spans_empty(pattern):
-                        ev.dev("empty-match", **ctx)
-                        reported = None
-                        break
-                    continue
+                    # a match that covers no instruction is not an occurrence (C07: every reported match begins at a record and has
+                    # the address of its first instruction): also a rule whose items may all be absent reports what it covers
+                    ev.dev("empty-match", **ctx)
+                    reported = None
+                    break
                 ij = locate(t, records, table, pos)
                 if ij is None:
                     ev.dev("match-not-a-window", observed=t, **ctx)
